@@ -155,6 +155,25 @@ CLAIMS["C10"] = dict(
                   "shapes (locality of both sides makes the family complete per level); constant comparison with BIP-380",
     engine="tablex")
 
+CLAIMS["C13"] = dict(
+    cat="other",
+    text="Decides, by evaluating the interpreter from its typed syntax tree on abstract witness stacks (opaque tokens: "
+         "a signature valid for exactly one key, keys, preimages, 32 zero bytes, junk, empty, [1]) against an independent "
+         "reference execution of the specification's Script for the same miniscript: over a family of ~60 well-typed "
+         "scripts covering every fragment (segwit v0 and tapscript), every canonical satisfaction is accepted; for every "
+         "single and double mutation of every canonical (dis)satisfaction, and for lock-time / sequence values around "
+         "every lock, interpreter acceptance implies script acceptance with exactly the executed checks reported. "
+         "from_txdata's success set, kept stack, inner kind and script code equal the BIP-16/141/143/341 table on all "
+         "(scriptSig, witness) combinations up to length 2 over right/wrong keys, redeem and witness scripts, control "
+         "blocks, annex. The signature-hash flavour used per output type is the BIP-143/341 one.",
+    note="Trusted: spec/msexec.py (reference Script semantics on abstract values, consensus rules), spec/script.py, "
+         "spec/satisfaction.py; models of rust-bitcoin parsing / hashing / Script API on tokens; rustc THIR; the evaluator. "
+         "Real signature verification, byte-level decoding of the scripts (C04) and the policy-satisfaction clause are "
+         "not decided; families are finite (bounded mutation depth).",
+    tech=STATIC + "abstract evaluation of the interpreter's THIR over finite abstract witness domains compared with a "
+                  "reference small-step Script semantics; exhaustive decision table of from_txdata; classification tables",
+    engine="tablex+symx")
+
 NA = {
     "C15": "commitment arithmetic over hashes with shape-dependent index arithmetic: no sound structural argument in "
            "reach decides it; structural residue (depth bounds, constructor discipline, cache coherence, order "
